@@ -53,6 +53,22 @@ static std::string digest_text(const std::string& text, const std::vector<std::v
       else
         d += " od" + std::to_string(i) + "=E" + (r.ok ? std::to_string((int)pr.Error()) : std::string("x"));
     }
+  // the text as a VIEW into a longer readable buffer (quotes / closers and digits behind it): success or failure and
+  // the slice are functions of the view alone in every configuration (no exclusion: truncated texts included)
+  {
+    static const char* tails[2] = {"\"\"\"\"\"\"\"\"\"\"\"\"\"\"\"\"\"\"\"\"\"\"\"\"\"\"\"\"\"\"\"\"\"\"\"\"\"\"\"\"\"\"\"\"\"\"\"\"\"\"\"\"\"\"\"\"\"\"\"\"\"\"\"\"\"\"\"\"\"\"", "2]}]}\"2,3]}]}]}\"2]}]}\"2,3]}]}]}\"2]}]}\"2,3]}]}]}\"2]}]}\"2,3]}]}]}\"2]}]}"};
+    for (int tl = 0; tl < 2; tl++) {
+      std::string buf = text + tails[tl];
+      for (size_t i = 0; i < jps.size(); i += 2) {
+        StringView t;
+        ParseResult pr = GetOnDemand(StringView(buf.data(), text.size()), jps[i], t);
+        if (pr.Error() == kErrorNone)
+          d += " vw" + std::to_string(tl) + "." + std::to_string(i) + "=[" + std::to_string(t.data() - buf.data()) + "," + std::to_string(t.size()) + "]";
+        else
+          d += " vw" + std::to_string(tl) + "." + std::to_string(i) + "=E";
+      }
+    }
+  }
   (void)paths;
   return d;
 }
@@ -86,6 +102,7 @@ int main(int argc, char** argv) {
   tf.push_back(fam::make_LM(lmbase, lm_maxlen));
   tf.push_back(fam::make_LW());
   tf.push_back(fam::make_LH(17));
+  tf.push_back(fam::make_LP());
   tf.push_back(fam::make_LX(std::make_shared<std::vector<fam::BaseText>>(fam::base_valid(3, false, 1)), 3));
   // valid grammar texts (on-demand + serialisation agree)
   auto gram = std::make_shared<std::vector<std::string>>(
